@@ -37,7 +37,8 @@ type c08Env struct {
 	pike   *hx.Pike
 	addr   string
 	admin  string
-	offset atomic.Int64
+	vnow   atomic.Int64
+	slack  atomic.Int64
 	mu     sync.Mutex
 	purged map[string]map[int64]bool // uri -> fetch ids that existed when a purge completed
 	infl   map[string]int            // client requests in flight per uri
@@ -45,12 +46,27 @@ type c08Env struct {
 	trace  []string
 }
 
-func (e *c08Env) now() int64 { return time.Now().Unix() + e.offset.Load() }
+// the clock of a case is purely virtual: pike reads an absolute time from its clock file on every clock
+// call and the harness, the origin and the client read the same value, so no verdict depends on how long
+// anything took in real time. It only moves when the case says so.
+func (e *c08Env) now() int64 { return e.vnow.Load() }
 
 func (e *c08Env) setNow(v int64) {
-	off := v - time.Now().Unix()
-	e.offset.Store(off)
-	e.pike.SetClockOffset(off)
+	e.mu.Lock()
+	busy := 0
+	for _, n := range e.infl {
+		busy += n
+	}
+	e.mu.Unlock()
+	if busy > 0 {
+		// never expected: a clock change while requests are in flight widens the creation bound
+		if d := v - e.vnow.Load(); d > e.slack.Load() {
+			e.slack.Store(d)
+		}
+		e.r.Add("clock_changes_with_requests_in_flight", 1)
+	}
+	e.pike.SetClockAbs(v)
+	e.vnow.Store(v)
 }
 
 func (e *c08Env) log(f string, a ...interface{}) {
@@ -103,7 +119,7 @@ func (e *c08Env) judge(res *hx.Result, phase string) bool {
 			r.Violate("uncacheable_served_as_hit", nil, "an uncacheable response is served as a hit", res.Brief(), cs)
 			return false
 		}
-		createdHi := f.VEnd + 1
+		createdHi := f.VEnd + e.slack.Load()
 		if res.VCall-createdHi > c08T {
 			r.Violate("served_after_original_expiry", map[string]string{"kind": e.c.Kind, "point": e.c.Point}, fmt.Sprintf("hit at %d of a version obtained at <= %d with T=%d", res.VCall, createdHi, c08T), res.Brief(), cs)
 			return false
@@ -242,6 +258,7 @@ func c08Run(r *hx.Run, bin string, c c08Case, rnd *rand.Rand) {
 	}
 	e.pike.Seed = r.Seed
 	defer e.pike.Kill()
+	e.setNow(1800000000 + int64(c.ID)*1000)
 	// ---- incarnation 1: populate, then SIGKILL at quiescence
 	if !e.start("populate") {
 		return
@@ -283,6 +300,7 @@ func c08Run(r *hx.Run, bin string, c c08Case, rnd *rand.Rand) {
 	e.log("populated %d keys sequentially and %d concurrently; SIGKILL", len(keysA), len(keysC))
 	e.pike.Kill()
 	r.Add("kills_external_at_quiescence", 1)
+	e.setNow(e.now() + 1 + int64(c.ID%3))
 	// ---- incarnation 2: armed
 	if c.Kind == "selfkill" {
 		e.pike.Points = fmt.Sprintf("%s=kill@%d", c.Point, c.Nth)
@@ -369,6 +387,7 @@ func c08Run(r *hx.Run, bin string, c c08Case, rnd *rand.Rand) {
 	if e.pike.Alive() {
 		e.pike.Kill()
 	}
+	e.setNow(e.now() + 1 + int64(c.ID%2))
 	// ---- incarnation 3: probes
 	e.pike.Points = ""
 	if !e.start("probe") {
